@@ -33,6 +33,7 @@ type SpecEnv struct {
 	label        string
 	tparams      map[*types.TypeParam]types.Type
 	logicalBound []*Term
+	capPre       map[string]*State // state in front of each captured call, keyed by "<name>_called"
 }
 
 type parsedClause struct {
@@ -83,6 +84,18 @@ func ensureIntrinsics(pkg *types.Package) {
 		tp := mkTP("T")
 		sig := types.NewSignatureType(nil, nil, []*types.TypeParam{tp}, types.NewTuple(v("x", tp)), types.NewTuple(v("", tp)), false)
 		sc.Insert(types.NewFunc(token.NoPos, pkg, n, sig))
+	}
+	// fresh[T](x T) bool: the slice / pointer / map is nil or was allocated by this function execution
+	{
+		tp := mkTP("T")
+		sig := types.NewSignatureType(nil, nil, []*types.TypeParam{tp}, types.NewTuple(v("x", tp)), types.NewTuple(v("", boolT)), false)
+		sc.Insert(types.NewFunc(token.NoPos, pkg, "fresh", sig))
+	}
+	// before[T](called bool, x T) T: x evaluated in the state right before the captured call
+	{
+		tp := mkTP("T")
+		sig := types.NewSignatureType(nil, nil, []*types.TypeParam{tp}, types.NewTuple(v("called", boolT), v("x", tp)), types.NewTuple(v("", tp)), false)
+		sc.Insert(types.NewFunc(token.NoPos, pkg, "before", sig))
 	}
 	// forall/exists(lo, hi int, f func(int) bool) bool
 	fsig := types.NewSignatureType(nil, nil, nil, types.NewTuple(v("i", intT)), types.NewTuple(v("", boolT)), false)
@@ -678,6 +691,35 @@ func (e *SpecEnv) intrinsic(name string, n *ast.CallExpr, targs []types.Type) Va
 		v := e.eval(n.Args[0])
 		e.inOld = sv
 		return v
+	case "fresh":
+		var ptr *Term
+		switch x := e.eval(n.Args[0]).(type) {
+		case *Term:
+			ptr = x
+		case *Agg:
+			if _, isSlice := e.info.Types[n.Args[0]].Type.Underlying().(*types.Slice); isSlice {
+				ptr = x.F[0].(*Term)
+			}
+		}
+		if ptr == nil || ptr.Sort != SPtr {
+			e.fail("fresh() expects a pointer, slice or map")
+		}
+		return Or(Eq(ptr, Null()), P.mk("(_ is new)", "", SBool, []*Term{ptr}, nil))
+	case "before":
+		id, ok := n.Args[0].(*ast.Ident)
+		if !ok || !strings.HasSuffix(id.Name, "_called") {
+			e.fail("before() expects <capture>_called as its first argument")
+		}
+		pre := e.capPre[id.Name]
+		if pre == nil {
+			// the call did not run on this path (or its pre-state is ambiguous): unconstrained value
+			t := e.info.Types[n.Args[1]].Type
+			return freshVal(t, "before."+id.Name, nil)
+		}
+		sub := *e
+		sub.st = pre
+		sub.inOld = false
+		return sub.eval(n.Args[1])
 	case "head":
 		if e.head == nil {
 			e.fail("head() not available here")
